@@ -131,6 +131,48 @@ theorem sweepRing_get (profile : List (Pt3 ℝ)) (m : Mt4 ℝ) (t w : ℝ) (at_ 
       some (Pt3.add (Pt4.asPt3 (Mt4.mulVec m ((profile[i].rotatedZ t).asPt4 w))) at_) := by
   simp [sweepRing, hi]
 
+/-- squared distance -/
+def dist2 (a b : Pt3 ℝ) : ℝ := (Pt3.sub a b).dot (Pt3.sub a b)
+
+/-- a frame with orthonormal columns moves points rigidly, as points (`w = 1`) or as directions
+(`w = 0`), whatever the translation -/
+theorem frame_rigid (m : Mt4 ℝ) (hm : Spec.IsProperRotation (C10.cols m)) (w : ℝ) (at_ u v : Pt3 ℝ) :
+    dist2 (Pt3.add (Pt4.asPt3 (Mt4.mulVec m (u.asPt4 w))) at_)
+          (Pt3.add (Pt4.asPt3 (Mt4.mulVec m (v.asPt4 w))) at_) = dist2 u v := by
+  obtain ⟨h1, h2, h3, h4, h5, h6, _⟩ := hm
+  simp only [C10.cols, Pt3.dot, Pt4.asPt3] at h1 h2 h3 h4 h5 h6
+  simp only [dist2, Pt3.sub, Pt3.add, Pt3.dot, Pt4.asPt3, Mt4.mulVec, Mt4.transposed, Pt4.dot4, Pt3.asPt4]
+  linear_combination ((u.x - v.x) * (u.x - v.x)) * h1 + ((u.y - v.y) * (u.y - v.y)) * h2 +
+    ((u.z - v.z) * (u.z - v.z)) * h3 + (2 * (u.x - v.x) * (u.y - v.y)) * h4 +
+    (2 * (u.x - v.x) * (u.z - v.z)) * h5 + (2 * (u.y - v.y) * (u.z - v.z)) * h6
+
+/-- the twist about Z is rigid -/
+theorem twist_rigid (p q : Pt3 ℝ) (t : ℝ) : dist2 (p.rotatedZ t) (q.rotatedZ t) = dist2 p q := by
+  have h := C10.cs_unit t
+  simp only [dist2, Pt3.sub, Pt3.dot, Pt3.rotatedZ, Pt3.rotatedZCS]
+  linear_combination ((p.x - q.x) * (p.x - q.x) + (p.y - q.y) * (p.y - q.y)) * h
+
+/-- **C05, sweep rings are rigid copies of the profile**: for a frame with orthonormal columns
+(which `look_at_matrix_lh` is whenever the path direction is defined and not vertical — C10
+`lookAt_rotation`; and for vertical directions — `lookAt_vertical`), any twist, any path point: the
+distance between any two ring points equals the distance between the two profile points -/
+theorem sweepRing_rigid (profile : List (Pt3 ℝ)) (m : Mt4 ℝ) (hm : Spec.IsProperRotation (C10.cols m))
+    (tw : Option ℝ) (w : ℝ) (at_ : Pt3 ℝ) (i j : Nat) (hi : i < profile.length) (hj : j < profile.length) :
+    ∃ P Q, (sweepRing profile m tw w at_)[i]? = some P ∧ (sweepRing profile m tw w at_)[j]? = some Q ∧
+      dist2 P Q = dist2 profile[i] profile[j] := by
+  cases tw with
+  | none =>
+    refine ⟨Pt3.add (Pt4.asPt3 (Mt4.mulVec m (profile[i].asPt4 w))) at_,
+      Pt3.add (Pt4.asPt3 (Mt4.mulVec m (profile[j].asPt4 w))) at_, by simp [sweepRing, hi],
+      by simp [sweepRing, hj], ?_⟩
+    exact frame_rigid m hm w at_ _ _
+  | some t =>
+    refine ⟨Pt3.add (Pt4.asPt3 (Mt4.mulVec m ((profile[i].rotatedZ t).asPt4 w))) at_,
+      Pt3.add (Pt4.asPt3 (Mt4.mulVec m ((profile[j].rotatedZ t).asPt4 w))) at_, by simp [sweepRing, hi],
+      by simp [sweepRing, hj], ?_⟩
+    rw [frame_rigid m hm w at_, twist_rigid]
+
+
 /-! ### transforms move points and leave faces untouched -/
 theorem translate_faces (p : Polyhedron ℝ) (d : Pt3 ℝ) : (p.translate d).faces = p.faces := rfl
 theorem applyMatrix_faces (p : Polyhedron ℝ) (m : Mt4 ℝ) : (p.applyMatrix m).faces = p.faces := rfl
